@@ -1265,3 +1265,57 @@ func identOf(e ast.Expr) *ast.Ident {
 	id, _ := ast.Unparen(e).(*ast.Ident)
 	return id
 }
+
+// c04SetAppend: the label lists of a Source are sets. appendToSlice is the one
+// place that adds to them, and every append it makes is guarded by
+// !slices.Contains(dst, v) for the very element appended. A duplicate entry
+// survives the single removal that includeLabel / removeFromSlice perform, so a
+// label that was excluded twice (`without(a, b, a)`) stays excluded after it is
+// re-added and a template using it gets a false `non-existent label` report.
+func c04SetAppend(c *Ctx, rule string) {
+	fi := c.MustFunc(rule, "internal/parser/utils.appendToSlice")
+	if fi == nil {
+		return
+	}
+	info := fi.Pkg.TypesInfo
+	pm := parentMap(fi.Decl.Body)
+	dst := paramObj(fi, 0)
+	n, bad := 0, ""
+	ast.Inspect(fi.Decl.Body, func(nd ast.Node) bool {
+		call, ok := nd.(*ast.CallExpr)
+		if !ok || exprStr(call.Fun) != "append" || len(call.Args) < 2 || objOf(info, call.Args[0]) != dst {
+			return true
+		}
+		n++
+		if call.Ellipsis.IsValid() {
+			bad = "append(dst, values...) adds a whole list unchecked"
+			return true
+		}
+		for _, v := range call.Args[1:] {
+			guarded := false
+			for _, a := range lexicalGuards(pm, call, fi.Decl.Body) {
+				e, t := ast.Unparen(a.E), a.Truth
+				for {
+					u, isU := e.(*ast.UnaryExpr)
+					if !isU || u.Op != token.NOT {
+						break
+					}
+					e, t = ast.Unparen(u.X), !t
+				}
+				g, isCall := e.(*ast.CallExpr)
+				if !isCall || t || len(g.Args) != 2 {
+					continue
+				}
+				if fn := Callee(info, g); fn != nil && fn.Pkg() != nil && fn.Pkg().Path() == "slices" && fn.Name() == "Contains" && objOf(info, g.Args[0]) == dst && exprIdentity(info, g.Args[1]) == exprIdentity(info, v) {
+					guarded = true
+				}
+			}
+			if !guarded {
+				bad = "`" + roleStr(info, v) + "` is appended without a membership test"
+			}
+		}
+		return true
+	})
+	c.Check(n >= 1 && bad == "", rule, "appendToSlice:never adds an element that is already there", fi.Decl.Pos(), itoa(n)+" append(s), each under !slices.Contains(dst, v)",
+		"appendToSlice can store a duplicate ("+bad+"): the label lists are treated as sets everywhere else (one removal per name), so a label listed twice in without(...)/ignoring(...) stays excluded after a later step re-adds it")
+}
